@@ -95,6 +95,7 @@ type scn struct {
 	bitAddr                         string            // address of the deployed WASM bit rule ("" if not deployed)
 	kvAddr                          *types.Address    // address of the deployed WASM storage contract (nil if not deployed)
 	kvSeq                           int
+	funded                          map[string]bool // accounts that exist with a balance (the API reader only polls those)
 	relaySet                        map[int]bool // validator indexes in the trust root currently stored for the other BitXHub (observed)
 	relayN                          int
 	icCum                           uint64      // C09: interchain transactions counted over all blocks (incl. the prologue)
@@ -233,6 +234,19 @@ func (s *scn) setup() {
 		s.add(s.b.transfer(a0, p.Addr, "5000"), &txMeta{kind: "setup", sender: a0})
 	}
 	s.flush()
+	s.funded = map[string]bool{}
+	for _, u := range s.users {
+		s.funded[u.Addr.String()] = true
+	}
+	for _, c := range s.chains {
+		s.funded[c.admin.Addr.String()] = true
+	}
+	for _, p := range s.poor {
+		s.funded[p.Addr.String()] = true
+	}
+	for i := 0; i < w.Admins; i++ {
+		s.funded[w.adminKey(i).Addr.String()] = true
+	}
 	// rules
 	var bitAddr string
 	for i, c := range s.chains {
@@ -250,6 +264,9 @@ func (s *scn) setup() {
 		}
 	}
 	if s.cfg.KV && !s.deployKV() {
+		return
+	}
+	if s.cfg.Rejected && !s.rejectedRegistrations() {
 		return
 	}
 	// register appchains
@@ -354,6 +371,39 @@ func (s *scn) setup() {
 }
 
 // voteAll approves the proposals with as many admins as the shipped majority rule needs.
+// rejectedRegistrations: before the chains are registered by their admins, the account that later plays the outsider
+// applied for every one of those chain ids itself and was turned down by the administrators. Nothing of those
+// applications may survive: the ids are taken by their real owners afterwards.
+func (s *scn) rejectedRegistrations() bool {
+	o := s.users[len(s.users)-1]
+	w := s.cfg.World
+	for _, c := range s.chains {
+		s.add(s.b.bvm(o, constant.AppchainMgrContractAddr, "RegisterAppchain", pb.String(c.id), pb.String("name-"+c.id), pb.Bytes(nil), pb.String("ETH"),
+			pb.Bytes(nil), pb.String("broker"), pb.String("desc"), pb.String(happyRule), pb.String("url"), pb.String(o.Addr.String()), pb.String("reason")),
+			&txMeta{kind: "setup", sender: o})
+		rs := s.flush()
+		if rs == nil || len(rs.Receipts) == 0 {
+			return false
+		}
+		g := &governance.GovernanceResult{}
+		rc := rs.Receipts[len(rs.Receipts)-1]
+		if rc.Status != pb.Receipt_SUCCESS || json.Unmarshal(rc.Ret, g) != nil || g.ProposalID == "" {
+			s.res.Aborted = fmt.Sprintf("setup: first RegisterAppchain failed: %s", rc.Ret)
+			return false
+		}
+		// every administrator rejects; votes after the conclusion are refused, which is fine
+		for i := 0; i < w.Admins; i++ {
+			k := w.adminKey(i)
+			s.add(s.b.bvm(k, constant.GovernanceContractAddr, "Vote", pb.String(g.ProposalID), pb.String("reject"), pb.String("r")), &txMeta{kind: "setup", sender: k})
+		}
+		if s.flush() == nil {
+			return false
+		}
+		s.res.Count("setup_rejected_registrations")
+	}
+	return true
+}
+
 func (s *scn) voteAll(pids []string) bool {
 	w := s.cfg.World
 	need := w.Admins/2 + 1
@@ -635,6 +685,27 @@ func (s *scn) flush() *blockResult {
 				s.res.Add("fault_reads_between_flush_and_commit", int64(len(changed)))
 			})
 			s.res.Count("fault_slow_disk_with_reader")
+		} else if r.pol.ApiReader > 0 && !s.inSetup {
+			ar := &apiReader{rnd: sim.NewRand(uint64(h)*0x9e3779b97f4a7c15 + uint64(r.id)*7919 + uint64(len(txs))), permil: r.pol.ApiReader}
+			seen := map[string]bool{}
+			for _, tx := range txs {
+				// the accounts this block moves value between, as an API client would poll them
+				for _, a := range []*types.Address{tx.From, tx.To} {
+					if a != nil && !seen[a.String()] && s.funded[a.String()] {
+						seen[a.String()] = true
+						ar.addrs = append(ar.addrs, a)
+					}
+				}
+			}
+			br, err = r.executeWithApiReader(ev, 12*time.Second, ar)
+			s.res.Add("fault_api_reader_landings", int64(len(ar.landed)))
+			for _, l := range ar.landed {
+				s.res.Count("fault_api_reader_in_" + strings.Split(l, "#")[0])
+				s.res.State("api-reader", l)
+			}
+			if len(ar.landed) > 0 {
+				s.logf("  api reader on replica %d ran at %v", r.id, ar.landed)
+			}
 		} else {
 			br, err = r.execute(ev, 12*time.Second)
 		}
